@@ -204,6 +204,8 @@ Qed.
 
 Definition Rleader (d : db) (v v' : val) : Prop := v' = v \/ uffE d v v'.
 
+Local Opaque seq Nat.mul.
+
 Lemma eq_cols_range : forall cols i j, In j (eq_cols cols i) -> i <= j < i + length cols.
 Proof.
   induction cols as [|b tl IH]; intros i j H; cbn [eq_cols] in H; [destruct H|].
